@@ -47,7 +47,7 @@ func selfArgs(out string, stub bool) []string {
 
 func checkC19(c *Ctx) error {
 	w := c.W
-	c.Rule = "self-hosting fixpoint replay: generation g regenerates internal/gontainer/gontainer.go with the tool built from generation g-1 (g=0: the checked-in file), compared byte for byte modulo the `// gontainer version:` line; generation 0 runs an unstamped build, generations 1 and 2 are rebuilt with the Makefile's ldflags stamps (clean, then dirty tree), generation 1 from the Makefile's file list `main.go`, generation 2 from the package; regeneration happens in place like `make self-compile`; the final tree is also built with release stamps (.goreleaser.yaml ldflags, versions with and without the v prefix, other major/minor numbers, pre-release and build metadata) and each such binary regenerates once; the configuration is also reached through a linked directory, per-file links, copies, absolute paths and redundant path elements; each (generation, repetition) comparison is one case, distinct by (generation, repetition)"
+	c.Rule = "self-hosting fixpoint replay: generation g regenerates internal/gontainer/gontainer.go with the tool built from generation g-1 (g=0: the checked-in file), compared byte for byte modulo the `// gontainer version:` line; generation 0 runs an unstamped build, generations 1 and 2 are rebuilt with the Makefile's ldflags stamps (clean, then dirty tree), generation 1 from the Makefile's file list `main.go`, generation 2 from the package; regeneration happens in place like `make self-compile`; the final tree is also built with release stamps (.goreleaser.yaml ldflags, versions with and without the v prefix, other major/minor numbers, pre-release and build metadata) and each such binary regenerates once; failing in-place attempts (a file forgotten, a broken extra file, a file matched twice) leave the checked-in container untouched; the configuration is also reached through a linked directory, per-file links, copies, absolute paths and redundant path elements; each (generation, repetition) comparison is one case, distinct by (generation, repetition)"
 	c.Assumptions = []string{"Makefile self-compile arguments are the intended self configuration", "go build of the scratch copy is faithful to /repo's working tree"}
 	gens := 3
 	reps := c.Pick(2, 10)
@@ -155,6 +155,50 @@ func checkC19(c *Ctx) error {
 		got, _ := os.ReadFile(out)
 		if run.Res.Exit != 0 || normGen(got) != want {
 			c.Violate("self-config-with-empty-patterns-differs", fmt.Sprintf("self configuration given with extra patterns that match nothing: exit %d, output equal to the checked-in file: %v\n%s", run.Res.Exit, normGen(got) == want, firstDiff(want, normGen(got))), nil)
+		}
+	}
+	// an attempt that fails (one of the tool's own files forgotten; a broken extra file) while regenerating IN PLACE leaves the
+	// checked-in container as it is, so that the tool can still be rebuilt and the next complete attempt reproduces it
+	{
+		target := filepath.Join(w.Repo, "internal/gontainer/gontainer.go")
+		before, _ := os.ReadFile(target)
+		_ = os.WriteFile(filepath.Join(w.Repo, "internal/gontainer/zz_broken.yml"), []byte("services:\n  broken: {constructor: \"not a go function()\"}\n"), 0o644)
+		forgot := []string{"build", "-i", "internal/gontainer/gontainer.yaml"}
+		if ns, _ := filepath.Glob(filepath.Join(w.Repo, "internal/gontainer/gontainer_*.yaml")); len(ns) > 0 {
+			for _, n := range ns {
+				if filepath.Base(n) != "gontainer_todo.yaml" {
+					forgot = append(forgot, "-i", "internal/gontainer/"+filepath.Base(n))
+				}
+			}
+		}
+		forgot = append(forgot, "-o", "internal/gontainer/gontainer.go")
+		attempts := [][]string{
+			forgot,
+			{"build", "-i", "internal/gontainer/gontainer.yaml", "-i", "internal/gontainer/gontainer_*.yaml", "-i", "internal/gontainer/zz_broken.yml", "-o", "internal/gontainer/gontainer.go"},
+			{"build", "-i", "internal/gontainer/gontainer.yaml", "-i", "internal/gontainer/gontainer_*.yaml", "-i", "internal/gontainer/gontainer_todo.yaml", "-o", "internal/gontainer/gontainer.go"},
+		}
+		for ai, args := range attempts {
+			run := cli.Do(w, bin, nil, w.Repo, target, args...)
+			c.Eval(fmt.Sprintf("failing-in-place/%d", ai), true)
+			after, _ := os.ReadFile(target)
+			if run.Res.Exit == 0 {
+				// not a failing attempt after all: nothing to judge, put the file back
+				c.Add("in_place_attempts_that_did_not_fail", 1)
+				_ = os.WriteFile(target, before, 0o644)
+				continue
+			}
+			c.Add("failing_in_place_attempts", 1)
+			if string(after) != string(before) {
+				c.Violate("failed-regeneration-damages-checked-in-container", fmt.Sprintf("a failing in-place regeneration (%v, exit %d) changed internal/gontainer/gontainer.go: %d bytes before, %d after", args, run.Res.Exit, len(before), len(after)), nil)
+				_ = os.WriteFile(target, before, 0o644)
+			}
+		}
+		_ = os.Remove(filepath.Join(w.Repo, "internal/gontainer/zz_broken.yml"))
+		run := cli.Do(w, bin, nil, w.Repo, target, selfArgs("internal/gontainer/gontainer.go", false)...)
+		got, _ := os.ReadFile(target)
+		c.Eval("regenerate-after-failed-attempts", true)
+		if run.Res.Exit != 0 || normGen(got) != want {
+			c.Violate("regeneration-after-failed-attempts-differs", fmt.Sprintf("after failed attempts the complete regeneration gives exit %d, equal to the checked-in file: %v", run.Res.Exit, normGen(got) == want), nil)
 		}
 	}
 	// other ways of reaching the same files: the tool's configuration through a linked directory, through per-file links
